@@ -340,6 +340,38 @@ def dump_state(arm, arch_only=False):
     return st
 
 
+import random as _random
+
+
+def run_predecessor(pre):
+    """the life of the predecessor instance (see gen_bank): a 'dump all banks' of all 32 mode numbers, writes in the modes legal for ITS configuration"""
+    arm = new_arm({'config': pre['config'], 'devices': [], 'regs': {}})
+    r = arm.registers
+    cfg = full_config(pre['config'])
+    legal = set([0x10, 0x11, 0x12, 0x13, 0x17, 0x1b, 0x1f] + ([0x16] if cfg['have_security_ext'] else []) + ([0x1a] if cfg['have_virt_ext'] else []))
+    rng = _random.Random(pre["seed"])
+    for mode in [0x10, 0x11, 0x12, 0x13, 0x16, 0x17, 0x1a, 0x1b, 0x1f] + [rng.randrange(32) for _ in range(4)]:
+        for n in range(15):
+            try:
+                r.get_rmode(n, mode)                       # reading is harmless even for a mode this configuration lacks (at worst UNKNOWN data)
+                if mode in legal and (mode != 0x16 or not r.scr.value & 1):
+                    r.set_rmode(n, mode, rng.getrandbits(32))
+            except Exception:
+                pass                                       # (a host error here is C18's subject and is found there)
+    for mode in range(32):
+        try:
+            r.cpsr_write_by_instr(mode | 0xC0, 0b0001, False)       # what a guest's MSR CPSR_c does: legal numbers are installed, the others refused
+        except Exception:
+            pass
+    for mode in sorted(legal):
+        r.cpsr.value = (r.cpsr.value & ~0x1F) | mode
+        for n in range(15):
+            r.set(n, r.get(n) ^ 0xFFFF)
+        if mode not in (0x10, 0x1f):
+            r.set_spsr(r.get_spsr())
+
+
+
 # ---------------------------------------------------------------- host-error classification
 
 ARCH_OK = ('NotImplementedError',)
